@@ -28,7 +28,7 @@ pub fn wl(labels: &[&str]) -> Vec<String> {
 }
 
 pub fn test_entry(prop: &str, e: &Entry) -> Result<CaseInfo, Fail> {
-    let run = run_attack(&e.attack, &ExecCfg { record_probes: false, step_budget: 600_000 });
+    let run = run_attack(&e.attack, &ExecCfg { record_probes: false, step_budget: 600_000, slow_sends: false });
     let mut undecided = false;
     let mut decided = false;
     let mut outcome_classes = vec![];
